@@ -679,8 +679,8 @@ func (p *c15Pair) converge(e *Env, r *rand.Rand, st *C15Stats) error {
 			}
 		}
 	}
-	// longer than every retention (7 days at most) and every age threshold
-	if err := e.Advance(8*24*time.Hour + time.Hour); err != nil {
+	// longer than every retention the generator uses (31 days at most) and every age threshold
+	if err := e.Advance(32*24*time.Hour + time.Hour); err != nil {
 		return err
 	}
 	age := []time.Duration{0, 30 * time.Second, time.Hour}[r.Intn(3)]
@@ -703,6 +703,9 @@ func (p *c15Pair) converge(e *Env, r *rand.Rand, st *C15Stats) error {
 		for _, ji := range r.Perm(len(pruneJobs)) {
 			op := &Op{Kind: "Job", Job: pruneJobs[ji], MinAge: age, MaxN: []int{1, 2, 3, 100}[r.Intn(4)]}
 			n, err := e.runJob(ctx, op)
+			if os.Getenv("VERIF_DEBUG") != "" {
+				fmt.Fprintf(os.Stderr, "converge seed=%d round=%d job=%s max=%d n=%d err=%v\n", p.Seed, round, op.Job, op.MaxN, n, err)
+			}
 			if err != nil {
 				failed++
 				lastErr = op.Job + ": " + err.Error()
@@ -735,6 +738,9 @@ func (p *c15Pair) converge(e *Env, r *rand.Rand, st *C15Stats) error {
 	var left []string
 	for _, x := range d.Dels {
 		left = append(left, "delivery "+x.ID.String())
+		if os.Getenv("VERIF_DEBUG") != "" {
+			fmt.Fprintf(os.Stderr, "left seed=%d now=%d del %+v\n", p.Seed, now, x)
+		}
 	}
 	for _, x := range d.Msgs {
 		if x.Published <= now-int64(age) {
